@@ -47,13 +47,25 @@ func RunC06(r *sim.Run) {
 	qps, burst := drawQB()
 	ctx, cancel := context.WithCancel(context.Background())
 	lim := flowcontrols.NewUpstreamLimiter(ctx, "c6", "", nil)
+	// the schema's limit strategy: none, local, or a global one with a global bucket next to
+	// the local one. This limiter runs in local mode, where the local bucket is the one that
+	// counts whatever the strategy says.
+	strat := []proxyv1alpha1.LimitStrategy{"", "", proxyv1alpha1.LocalLimit, proxyv1alpha1.GlobalAllocateLimit, proxyv1alpha1.GlobalCountLimit}[t.Draw(5)]
 	mk := func(q, b int32) proxyv1alpha1.FlowControl {
-		return proxyv1alpha1.FlowControl{Schemas: []proxyv1alpha1.FlowControlSchema{{
-			Name: "tb",
+		sc := proxyv1alpha1.FlowControlSchema{
+			Name:     "tb",
+			Strategy: strat,
 			FlowControlSchemaConfiguration: proxyv1alpha1.FlowControlSchemaConfiguration{
 				TokenBucket: &proxyv1alpha1.TokenBucketFlowControlSchema{QPS: q, Burst: b},
 			},
-		}}}
+		}
+		if strat == proxyv1alpha1.GlobalAllocateLimit || strat == proxyv1alpha1.GlobalCountLimit {
+			sc.GlobalTokenBucket = &proxyv1alpha1.TokenBucketFlowControlSchema{QPS: q * 3, Burst: b * 3}
+		}
+		return proxyv1alpha1.FlowControl{Schemas: []proxyv1alpha1.FlowControlSchema{sc}}
+	}
+	if strat != "" {
+		r.Probe("strategy_" + string(strat))
 	}
 	lim.Sync(mk(qps, burst))
 	start := time.Now()
